@@ -11,6 +11,8 @@ ASSUMPTIONS = [
     "each state is served by the real ReplicationService handler and fetched with the real ReplicationClient::get_state over loopback; equality is judged "
     "on lookups, listed tombstones, and the accept/refuse decision of will_apply and both mutators (both sources) for every probe operation, "
     "plus the internal projection (hook)",
+    "states with purgeable tombstones are fetched a second time from the same keyspace after the sender purged them (no write in between): "
+    "the second reply must be the sender's state at that moment",
     "undecodable states: a server answering under the real service's name with a valid frame whose nested set bytes are empty / truncated / random / "
     "zeroed / have an overwritten root; each case runs in a process of its own so that a crash of the client is an observation",
     "bit-flipped but structurally valid archives are indistinguishable from a different valid state and are not required to be refused",
@@ -52,7 +54,9 @@ def run(ctx):
         transfers += rep["evaluations"]
         samples += rep["samples"][:3]
         stats.append({k: rep[k] for k in ("model_states", "inflated_states", "inflated_entries", "empty_states",
-                                          "tombstone_only_states", "both_sources_populated")})
+                                          "tombstone_only_states", "both_sources_populated", "refetches_after_purge")})
+    if sum(x["refetches_after_purge"] for x in stats) == 0:
+        raise vlib.ToolError("vacuous: no state with purgeable tombstones was re-fetched after a purge")
     # undecodable states, one process each
     n_cases = 12 if ctx.tier == "quick" else 72
     outcomes = []
